@@ -270,6 +270,8 @@ class Gen:
             if len(normal) >= 2:
                 a, b = r.sample(normal, 2)
                 o.dep_req = {a.name: [b.name]}
+        if kind == "dataclass" and len(o.fields) >= 2 and not o.tvars() and not any(f.initvar for f in o.fields) and r.random() < 0.12:
+            o.inherit = r.randint(1, len(o.fields) - 1)  # leading fields declared in a base dataclass
         return o
 
     def _field_features(self, f: F, kind):
